@@ -2,12 +2,17 @@
    orders and the flag -> mode table re-extracted from the code on this run (gen/Params_C02.v).
    Conventions: a scenario c (cfg) has capacity 2^(c_k c), c_nw writers, c_nr readers, c_pre
    messages written before the threads start; written = (s_nw, s_wr), appended at the cursor
-   store; reader t's k-th result is t_got k, its 32-bit index register t_idx; the documented
-   no-lapping precondition (writes begun < next reader index + capacity, at every slot store)
+   store; reader t's k-th result is t_got k, its 32-bit index register t_idx; a reader's first
+   index c_idx0 c t is ANY 32-bit index whose ring position has been written (wf_cfg: late
+   joiners that start at an older, still valid message, readers at different residues, readers
+   at the cursor); rd_start c t = c_pre - (c_pre - c_idx0) mod capacity is the position of that
+   message in the write order, so the reader's k-th read asks for logical index rd_start c t + k;
+   readers may stop after any number of reads (c_rq); the documented no-lapping precondition
+   (writes begun < next index + capacity for every reader that still reads, at every slot store)
    is the ghost monitor s_lapped = false. *)
 From MV Require Import C02.Model C02.ProofsBase C02.ProofsCtl C02.ProofsFun C02.ProofsFunStep
   C02.ProofsTop C02.ProofsEx C02.ProofsView C02.ProofsViewStep C02.ProofsVis C02.ProofsOnce
-  C02.ProofsThrottle C02.ProofsParam gen.Params_C02.
+  C02.ProofsThrottle C02.ProofsParam C02.ProofsGen C02.ProofsTie C02.ProofsTieGen gen.Params_C02.
 Local Open Scope Z_scope.
 
 (* the flag -> mode decision of muggle_ring_buffer_get_mode, as computed by the code on this run,
@@ -21,28 +26,41 @@ Theorem rb_mode_table_matches :
 Proof. vm_compute. split; reflexivity. Qed.
 Print Assumptions rb_mode_table_matches.
 
-(* for every schedule, any number of writers and readers, any power-of-two capacity: under the
-   no-lapping precondition the k-th read of a waiting / busy reader (logical index pre + k)
-   returned the (pre + k)-th element of written, and that element existed *)
+(* the logical position a first index names: congruent to the index modulo the capacity, at most
+   c_pre (the cursor), less than a capacity behind it (not lapped); an index at the cursor names
+   position c_pre.  Pure arithmetic, for every configuration and every index. *)
+Theorem rb_start_position : forall c t,
+  rd_start c t mod cap c = c_idx0 c t mod cap c /\
+  c_pre c - cap c < rd_start c t <= c_pre c /\
+  (c_idx0 c t mod cap c = c_pre c mod cap c -> rd_start c t = c_pre c).
+Proof. exact rd_start_facts. Qed.
+Print Assumptions rb_start_position.
+
+(* for every schedule, any number of writers and readers, any power-of-two capacity, any first
+   index of every reader: under the no-lapping precondition the k-th read of a waiting / busy
+   reader (logical index rd_start + k) returned the (rd_start + k)-th element of written, and
+   that element existed *)
 Theorem rb_read_returns_ith : forall c sched t k, wf_cfg c -> c_rm c <> ROnce ->
   let s := exec sys (step code_params) (init c) sched in
   s_lapped s = false -> 0 <= k < t_cnt (s_thr s t) ->
-  t_got (s_thr s t) k = s_wr s (c_pre c + k) /\ c_pre c + k < s_nw s.
+  t_got (s_thr s t) k = s_wr s (rd_start c t + k) /\ rd_start c t + k < s_nw s.
 Proof. exact (rb_read_returns_ith_all code_params). Qed.
 Print Assumptions rb_read_returns_ith.
 
-(* all readers see the same order *)
-Theorem rb_readers_agree : forall c sched t u k, wf_cfg c -> c_rm c <> ROnce ->
+(* all readers see the same order: whatever their first indices, the k-th read of t and the j-th
+   read of u return the same message when they ask for the same logical index *)
+Theorem rb_readers_agree : forall c sched t u k j, wf_cfg c -> c_rm c <> ROnce ->
   let s := exec sys (step code_params) (init c) sched in
-  s_lapped s = false -> 0 <= k < t_cnt (s_thr s t) -> 0 <= k < t_cnt (s_thr s u) ->
-  t_got (s_thr s t) k = t_got (s_thr s u) k.
+  s_lapped s = false -> 0 <= k < t_cnt (s_thr s t) -> 0 <= j < t_cnt (s_thr s u) ->
+  rd_start c t + k = rd_start c u + j ->
+  t_got (s_thr s t) k = t_got (s_thr s u) j.
 Proof. exact (rb_readers_agree_all code_params). Qed.
 Print Assumptions rb_readers_agree.
 
 (* wrap of the 32-bit reader index is harmless: the ring position depends on the index only
    modulo the capacity, which divides 2^32; the register is (first index + reads) mod 2^32 in
-   every reachable state; and rb_read_returns_ith holds for every first index (wf_cfg only asks
-   for first index = pre modulo the capacity), in particular 2^32-3 (Example rb_nonvacuous) *)
+   every reachable state; and rb_read_returns_ith holds for every first index whose ring position
+   has been written, in particular 2^32-3 (Examples rb_nonvacuous, rb_late_joiners_nonvacuous) *)
 Theorem rb_idx_wrap : forall c,
   (c_k c <= 32)%nat ->
   (exists q, two32 = q * cap c) /\
@@ -116,7 +134,8 @@ Proof. exact (rb_once_positions_all code_params). Qed.
 Print Assumptions rb_once_positions.
 
 (* the harness throttle (model of c02_driver.c can_begin: a writer takes ticket k only when
-   k + 1 < min over the readers of the next index + capacity; read-once: delivered + capacity)
+   k + 1 < min over the readers that still have reads to do of the next index + capacity - no
+   constraint once every reader has finished; read-once: delivered + capacity)
    implies the documented precondition: the monitor never fires, for every schedule *)
 Theorem rb_throttle_no_lap : forall c sched, wf_cfg c -> c_thr c = true ->
   s_lapped (exec sys (step code_params) (init c) sched) = false.
@@ -128,7 +147,7 @@ Theorem rb_throttled_read_and_visibility : forall c sched t k, wf_cfg c -> c_thr
   let s := exec sys (step code_params) (init c) sched in
   s_uncov s = 0%nat /\
   (c_rm c <> ROnce -> 0 <= k < t_cnt (s_thr s t) ->
-   t_got (s_thr s t) k = s_wr s (c_pre c + k) /\ c_pre c + k < s_nw s).
+   t_got (s_thr s t) k = s_wr s (rd_start c t + k) /\ rd_start c t + k < s_nw s).
 Proof.
   intros c sched t k Hwf Ht s. pose proof (rb_throttle_no_lap c sched Hwf Ht) as Hl. fold s in Hl. split.
   - exact (rb_payload_visible c sched Hwf Hl).
@@ -161,11 +180,77 @@ Theorem ring_trace_value_independent : forall c f sched,
 Proof. intros c f sched. exact (proj2 (value_independent_exec code_params c f sched)). Qed.
 Print Assumptions ring_trace_value_independent.
 
-(* additional obligation from a source scan of ring_buffer.c on this run (lib/props/c02.py
-   scan_payload_comparisons; a heuristic, not a proof): the code nowhere compares a message value
-   (x->data, a local assigned from it, the data argument) with anything - which is the C-side
-   counterpart of the parametricity above and what makes testing the correspondence on a few
-   special values meaningful *)
+(* additional obligation from an AST scan of ring_buffer.c on this run (lib/props/c02_scan.py over clang's JSON
+   AST; a taint analysis, not a proof): no payload value (blocks[i].data, whatever is stored into it, every
+   variable / parameter / return value it is copied through inside the file, also through the function pointer
+   tables) is used in any way other than copying, returning or discarding it - no truthiness test (if (d), !d,
+   d ? :, &&), comparison, switch, arithmetic, cast to an integer, dereference, no call of a function outside
+   the file (memcmp, ...) - which is the C-side counterpart of the parametricity above and what makes testing
+   the correspondence on a few special values meaningful.  A scan that cannot run gives a non-zero count. *)
 Theorem rb_code_never_compares_payload : code_payload_comparisons = 0%nat.
 Proof. reflexivity. Qed.
 Print Assumptions rb_code_never_compares_payload.
+
+(* CAPACITY.  muggle_ring_buffer_init accepts exactly the requests 1 .. 2^30 and uses the smallest power of two
+   >= the request (hence every accepted ring has capacity 2^k with k <= 30, which is what cfg's c_k stands for);
+   0 and every request above 2^30 (up to the largest uint32_t) is refused.  init_capacity is the model's
+   transcription (muggle_next_pow_of_2, then the cast to the int32_t field and the <= 0 test). *)
+Theorem rb_capacity_rounding : forall n, 0 <= n < 2 ^ 32 ->
+  (0 < n <= 2 ^ 30 ->
+     exists k, init_capacity n = Some (2 ^ Z.of_nat k) /\ (k <= 30)%nat /\ n <= 2 ^ Z.of_nat k /\
+               (k = O \/ 2 ^ (Z.of_nat k - 1) < n)) /\
+  (n = 0 \/ 2 ^ 30 < n -> init_capacity n = None).
+Proof. exact init_capacity_spec. Qed.
+Print Assumptions rb_capacity_rounding.
+
+(* ... and the code computes exactly that: muggle_ring_buffer_init was RUN on this check for every request in
+   0 .. 1025, for 2^k - 1, 2^k, 2^k + 1 up to 2^20 and for refused requests above 2^30 (required_caps; the table
+   must contain them all), and each row (request, return code, capacity field) equals the model's init_capacity *)
+Theorem rb_capacity_table_matches : cap_table_ok code_cap_table = true.
+Proof. vm_compute. reflexivity. Qed.
+Print Assumptions rb_capacity_table_matches.
+
+(* C TYPES (as compiled on this run).  The fields the model treats as 32-bit machine integers have exactly the
+   size and signedness it assumes (capacity int32_t - the refusal above 2^30 depends on the sign -, cursor and
+   read_cursor uint32_t, flag / write_mode / read_mode int), muggle_ring_buffer_read takes a uint32_t index
+   (prototype checked with _Generic; the reader's register wraps modulo two32 in the model), a block holds the
+   payload pointer at offset 0, and no integer variable, parameter or conversion in the functions of
+   ring_buffer.c is narrower than 32 bits (AST scan): positions, cursor values and indices are never truncated *)
+Theorem rb_field_types_match : types_ok code_field_types code_sigs code_block_ptr code_narrow_ints = true.
+Proof. vm_compute. reflexivity. Qed.
+Print Assumptions rb_field_types_match.
+
+(* SECOND TIE (translator kind).  The integer content of the functions of ring_buffer.c - index arithmetic and
+   the conditions between their atomic / futex operations - is sliced out of the C text of THIS run
+   (lib/props/c02_slice.py over clang's JSON AST; gen_ definitions of gen/Params_C02.v: inputs cap = r->capacity,
+   cur = r->cursor read plainly, rc = r->read_cursor, wpos = value of the atomic load of the cursor, idx = index
+   argument; result (kind 0 return / 1 futex wait then loop / 2 loop, value, slot stored, cursor stored,
+   read_cursor stored, wake 0 none / 1 one / 2 all)) and equals, for EVERY capacity 2^k with k <= 30, every position
+   and every 32-bit index, the reference functions of C02/ProofsTie.v - which are what the model's step function
+   computes (lemmas step_write_ref, step_cursor_ref, step_wake_ref, step_nowake_busy, step_rload_ref,
+   step_rread_ref, step_kcheck_ref there).  Values the runs never reach (capacities above 64) are covered. *)
+Theorem rb_code_write_matches : forall m k cur rc wpos idx, tie_dom k cur rc wpos idx -> m = 0 \/ m = 1 ->
+  gen_write_fn m (2 ^ Z.of_nat k) cur rc wpos idx = ref_write (2 ^ Z.of_nat k) cur.
+Proof. exact gen_write_ref. Qed.
+Print Assumptions rb_code_write_matches.
+
+Theorem rb_code_wake_matches : forall m k cur rc wpos idx, tie_dom k cur rc wpos idx ->
+  m = 0 \/ m = 1 \/ m = 2 \/ m = 3 ->
+  gen_wake_fn m (2 ^ Z.of_nat k) cur rc wpos idx = ref_wake m.
+Proof. exact gen_wake_ref. Qed.
+Print Assumptions rb_code_wake_matches.
+
+Theorem rb_code_read_matches : forall m k cur rc wpos idx, tie_dom k cur rc wpos idx ->
+  m = 0 \/ m = 1 \/ m = 2 \/ m = 3 ->
+  gen_read_fn m (2 ^ Z.of_nat k) cur rc wpos idx = ref_read m (2 ^ Z.of_nat k) rc wpos idx.
+Proof. exact gen_read_ref. Qed.
+Print Assumptions rb_code_read_matches.
+
+(* muggle_ring_buffer_write calls write_functions[write_mode] then wake_functions[read_mode];
+   muggle_ring_buffer_read calls read_functions[read_mode] with the index modulo the capacity; table sizes *)
+Theorem rb_code_entry_matches : forall k wm rm idx, (k <= 30)%nat -> 0 <= idx < 4294967296 ->
+  gen_write_entry wm rm = ref_write_entry wm rm /\
+  gen_read_entry (2 ^ Z.of_nat k) rm idx = ref_read_entry (2 ^ Z.of_nat k) rm idx /\
+  gen_write_fn_len = 2 /\ gen_wake_fn_len = 4 /\ gen_read_fn_len = 4.
+Proof. exact gen_entry_ref. Qed.
+Print Assumptions rb_code_entry_matches.
